@@ -113,6 +113,19 @@ def corpus_cases(start):
     sel = ["Order", "Bill"]
     aio, sep = ms.cmd_file("model.go"), ms.cmd_file("model.go", sep=True)
     res.append(Case(start + 1, ms, aio, sep, sel, [ms.cmd_types(sel), ms.cmd_types(list(reversed(sel)))]))
+    # an embedding chain of depth 3 (4) whose middle types have no accessor-producing field of their own: their
+    # accessor interfaces consist of embedded interfaces only and must still be fed back (overlay) for the next type
+    for k, (ptr, extra) in enumerate(((False, False), (True, True))):
+        items_mid = [E("Base", ptr=ptr)] + ([F("Note", "string")] if extra else [])
+        structs = [S("Base", [F("z", "string"), F("b", "int")]), S("Mid", items_mid),
+                   S("Top", [E("Mid", ptr=ptr), F("k", "string")])]
+        if extra:
+            structs.append(S("Leaf", [E("Top"), F("Open", "bool")]))
+        cf = histgen.HFile("chain.go", structs)
+        cs_ = histgen.Pkg("new", "p", [cf], ["-getset"] + (["-json"] if extra else []))
+        sel = [s.name for s in structs]
+        res.append(Case(start + 2 + k, cs_, cs_.cmd_file("chain.go"), cs_.cmd_file("chain.go", sep=True), sel,
+                        [cs_.cmd_types(sel), cs_.cmd_types(list(reversed(sel)))]))
     return res
 
 
